@@ -1,6 +1,7 @@
 package main
 
 import (
+	"os"
 	"fmt"
 	"go/token"
 	"go/types"
@@ -272,6 +273,16 @@ func (f *Frame) binop(in ssa.Instruction, op token.Token, x, y SV, xt, yt, rt ty
 		if y.T == "0" {
 			return x
 		}
+		if !signed {
+			// operands with known disjoint bit footprints (byte packing): x|y == x+y
+			if xl, xh, ok := c.bitsOf(x.T); ok {
+				if yl, yh, ok := c.bitsOf(y.T); ok && (xh <= yl || yh <= xl) {
+					r := "(+ " + x.T + " " + y.T + ")"
+					c.noteBits(r, mini(xl, yl), maxi2(xh, yh))
+					return tv(r)
+				}
+			}
+		}
 		r := "(bits.or " + x.T + " " + y.T + ")"
 		if !signed {
 			c.assume(g, fmt.Sprintf("(and (>= %[1]s %[2]s) (>= %[1]s %[3]s) (<= %[1]s (+ %[2]s %[3]s)) (<= %[1]s %[4]s))", r, x.T, y.T, hi))
@@ -291,6 +302,11 @@ func (f *Frame) binop(in ssa.Instruction, op token.Token, x, y SV, xt, yt, rt ty
 				return tv("0")
 			}
 			s := "(* " + x.T + " " + pow2s(int(k)) + ")"
+			if xl, xh, ok := c.bitsOf(x.T); ok && !signed && xh+int(k) <= bits {
+				// the shifted value keeps all its bits: no wrap
+				c.noteBits(s, xl+int(k), xh+int(k))
+				return tv(s)
+			}
 			if r := exact(s); r.T != "" {
 				return r
 			}
@@ -377,6 +393,9 @@ func (f *Frame) convert(in ssa.Instruction, x SV, from, to types.Type, st *State
 		}
 		// widening of in-range values is the identity
 		if (fs == ts && tb >= fb) || (!fs && ts && tb > fb) {
+			if !fs && x.T != "" {
+				c.noteBits(x.T, 0, fb)
+			}
 			return x
 		}
 		if f.x.nowrapOn() && f.x.root != nil && f.x.root.contract != nil && f.x.root.contract.Flags["exact"] != "" {
@@ -856,7 +875,7 @@ func (f *Frame) applyContract0(in ssa.Instruction, ct *Contract, fn *ssa.Functio
 						es := strings.TrimSuffix(strings.TrimPrefix(inner, "(Array Int "), ")")
 						cellT := c.heapCellT[t.heap]
 						var nv string
-						if n, ok := isNum(c.simplify("(- " + t.hi + " " + t.lo + ")")); ok && n <= 64 {
+						if n, ok := isNum(c.simplify("(- " + t.hi + " " + t.lo + ")")); ok && n <= 128 {
 							nv = cur
 							for k := int64(0); k < n; k++ {
 								ev := c.freshConst("asge", es)
@@ -876,7 +895,11 @@ func (f *Frame) applyContract0(in ssa.Instruction, ct *Contract, fn *ssa.Functio
 								}
 							}
 						}
-						st.set(t.heap, ite("(= "+t.ref+" 0)", st.get(t.heap), sto(st.get(t.heap), t.ref, nv)))
+						if os.Getenv("GOVC_ITE") != "" {
+							st.set(t.heap, ite("(= "+t.ref+" 0)", st.get(t.heap), sto(st.get(t.heap), t.ref, nv)))
+						} else {
+							st.set(t.heap, sto(st.get(t.heap), t.ref, nv)) // (elements of the nil slice, object 0, are never read)
+						}
 						continue
 					}
 					nv := c.freshConst("asg", inner)
@@ -1209,4 +1232,48 @@ func (f *Frame) constSliceLen(v ssa.Value) (int64, bool) {
 		}
 	}
 	return 0, false
+}
+
+// Bit footprints: bitsOf(t) = [lo, hi) means term t is a non-negative integer whose set bits all lie in
+// positions lo..hi-1 (recorded for widened unsigned values and constant shifts of them).
+func (c *Ctx) noteBits(t string, lo, hi int) {
+	if c.bitFoot == nil {
+		c.bitFoot = map[string][2]int{}
+	}
+	c.bitFoot[t] = [2]int{lo, hi}
+}
+
+func (c *Ctx) bitsOf(t string) (int, int, bool) {
+	if n, ok := isNum(t); ok && n >= 0 {
+		if n == 0 {
+			return 0, 0, true
+		}
+		lo, hi := 0, 0
+		for n&1 == 0 {
+			n >>= 1
+			lo++
+		}
+		hi = lo
+		for n != 0 {
+			n >>= 1
+			hi++
+		}
+		return lo, hi, true
+	}
+	r, ok := c.bitFoot[t]
+	return r[0], r[1], ok
+}
+
+func mini(a, b int) int {
+	if a < b {
+		return a
+	}
+	return b
+}
+
+func maxi2(a, b int) int {
+	if a > b {
+		return a
+	}
+	return b
 }
